@@ -66,9 +66,10 @@ func (g *xg) name(parent string) (name, nsAttr string) {
 	default:
 		name = g.pick(wordNames)
 	}
-	if name == parent {
-		// a self-closed child with attributes as the last child of a same-named parent is the
-		// known rewrite hazard; the regular generator never nests equal names (hazard sessions do)
+	if name == parent && g.r.Intn(2) == 0 {
+		// equal names nest half of the time (a self-closed child with attributes as the last child
+		// of a same-named parent was a rewrite defect, fixed by 11a6e1c); otherwise a name that has
+		// the parent's name as a proper prefix
 		name += "2"
 	}
 	return
@@ -185,8 +186,10 @@ func (g *xg) elem(b *strings.Builder, depth int, parent string, budget *int) {
 					cn = name[:len(name)-1]
 				}
 			}
-			if cn == name {
+			if cn == name && g.r.Intn(2) == 0 {
 				cn += "-2"
+			} else if g.r.Intn(8) == 0 {
+				cn = name // self-closed child, same name as the parent, directly before the parent's end tag
 			}
 			if g.r.Intn(3) == 0 {
 				b.WriteString("<" + cn + " />")
